@@ -28,15 +28,15 @@ CHECKS = {
     "": ["C01", "C15", "C17", "C08", "C14", "C16", "C02", "C09", "C19"],
     "policy": ["C12", "C01", "C10", "C16"],
     "common": ["C01", "C16"],
-    "retrypolicy": ["C02", "C13", "C01", "C16", "C08", "C17", "C14"],
-    "circuitbreaker": ["C03", "C04", "C01", "C16", "C14"],
+    "retrypolicy": ["C02", "C13", "C12", "C01", "C16", "C08", "C17", "C14"],
+    "circuitbreaker": ["C03", "C04", "C12", "C01", "C16", "C14"],
     "ratelimiter": ["C05", "C01", "C08", "C16", "C14"],
     "bulkhead": ["C06", "C01", "C08", "C16"],
     "timeout": ["C07", "C01", "C08", "C16"],
     "hedgepolicy": ["C09", "C12", "C08", "C17", "C01", "C19"],
-    "fallback": ["C10", "C01", "C08", "C16"],
+    "fallback": ["C10", "C12", "C01", "C08", "C16"],
     "cachepolicy": ["C11", "C01", "C16"],
-    "failsafehttp": ["C18", "C19"],
+    "failsafehttp": ["C18", "C19", "C13"],
     "failsafegrpc": ["C18", "C19"],
     "internal/util": ["C18", "C19", "C12", "C13", "C05"],
     "internal": ["C01", "C12"],
